@@ -7,7 +7,11 @@
 // of one document (so that blocks with different line-height / font-size /
 // text-align / overflow-wrap are laid out by one Layout call), lays the document
 // out with /repo's real pipeline and writes one case per block (paragraph, width)
-// as a Coq term of type Check.C11.case.
+// as a Coq term of type Check.C11.case.  Stream `glued` (genGlued): inline boxes
+// with non-zero horizontal edges holding several short words, followed WITHOUT
+// a break opportunity by text / another box, at the widths where the box fits
+// entirely and what is glued to it does not (gluedWidths): the line has to be
+// re-broken inside a box that was already placed (breakWaitingChildren).
 //
 // THE PROJECTION (this is the tie): the item list given to the model is read
 // from /repo's own box tree BEFORE layout (layout.VerifBoxTree = the
@@ -963,6 +967,96 @@ func symptoms(p bo.Box, ls []oline, avail pr.Fl, items []item, em int) []string 
 	if dropped {
 		tags = append(tags, "impl-space-dropped-midline")
 	}
+	// Known findings C11/overflow-wrap-line-start-test-too-strict / -too-lax (overflow-wrap: anywhere | break-word):
+	// emergency(k) = the position between the glyphs k-1 and k of the paragraph is an
+	// emergency break opportunity only (an EB and nothing but inline-box edges between them)
+	emergency := func(k int) bool {
+		if k <= 0 || k >= len(glyphAt) || glyphAt[k-1] == glyphAt[k] {
+			return false
+		}
+		eb := false
+		for j := glyphAt[k-1] + 1; j < glyphAt[k]; j++ {
+			switch items[j].Kind {
+			case 'E':
+				eb = true
+			case 'O', 'C':
+			default:
+				return false
+			}
+		}
+		return eb
+	}
+	var atomAt []int
+	for i, it := range items {
+		if it.Kind == 'A' {
+			atomAt = append(atomAt, i)
+		}
+	}
+	wraps := func(m string) bool { return m == "normal" || m == "pre-line" || m == "pre-wrap" }
+	g0, a0 := 0, 0
+	owOverflow, owMidline := false, false
+	for k, l := range ls {
+		g1, a1 := g0, a0
+		for _, f := range l.frags {
+			if f.atomic {
+				a1++
+				continue
+			}
+			for _, c := range f.text {
+				if c != ' ' && c != '\n' {
+					g1++
+				}
+			}
+		}
+		if g1 > len(glyphAt) || a1 > len(atomAt) {
+			break
+		}
+		// (i) the line is wider than the container although it holds an emergency opportunity
+		if l.w > avail+0.01 {
+			for g := g0 + 1; g < g1; g++ {
+				if emergency(g) {
+					owOverflow = true
+				}
+			}
+		}
+		// (ii) the line ends at an emergency opportunity although it holds a regular one (a
+		// wrapping space after content, or the boundary of an atomic inline)
+		if k+1 < len(ls) && g1 > g0 && emergency(g1) {
+			first := glyphAt[g0]
+			if a1 > a0 && atomAt[a0] < first {
+				first = atomAt[a0]
+			}
+			solid, afterAtomic := false, false
+			for j := first; j <= glyphAt[g1-1]; j++ {
+				switch it := items[j]; it.Kind {
+				case 'W':
+					if afterAtomic {
+						owMidline = true
+					}
+					solid = true
+				case 'S':
+					if solid && wraps(it.mode) {
+						owMidline = true
+					}
+				case 'A':
+					if wraps(it.mode) {
+						if solid {
+							owMidline = true
+						}
+						afterAtomic = true
+					}
+					solid = true
+				}
+			}
+		}
+		g0, a0 = g1, a1
+	}
+	if owOverflow {
+		tags = append(tags, "impl-ow-overflow-unbroken")
+	}
+	if owMidline {
+		tags = append(tags, "impl-ow-emergency-break-after-opportunity")
+	}
 	// a fragment of an inline box that holds no text and no atomic inline but carries the
 	// box's end edge: the end of the box has been separated from its last content
 	var hasContent func(b bo.Box) bool
@@ -1015,6 +1109,14 @@ func symptoms(p bo.Box, ls []oline, avail pr.Fl, items []item, em int) []string 
 		got := f.MarginRight.V() + f.BorderRightWidth.V() + f.PaddingRight.V()
 		if want > 0 && got == 0 {
 			tags = append(tags, "impl-lost-close-edge")
+			break
+		}
+	}
+	// any symptom of the C11/space-at-limit family (for inputs that have both structural
+	// triggers, code 103)
+	for _, t := range tags {
+		if !strings.HasPrefix(t, "impl-ow-") {
+			tags = append(tags, "impl-space-at-limit-symptom")
 			break
 		}
 	}
@@ -1650,7 +1752,7 @@ func main() {
 			engine = "gotext"
 		}
 		switch k := r.Intn(20); {
-		case k < 11:
+		case k < 10:
 			rn.runDoc(genDoc(r, genPara), r, engine, 16, "para")
 		case k < 13:
 			rn.runDoc(genDoc(r, genGlued), r, engine, 16, "glued")
